@@ -6,16 +6,17 @@ cd "$(dirname "$0")/.."
 export GOFLAGS=-mod=mod GOPROXY=off GOSUMDB=off GOTOOLCHAIN=local
 declare -A P=( [audio]="C16 C08 C09" [pktz]="C06 C07" [ext]="C17 C18 C06" [vla]="C19" [core1]="C01 C02 C03 C04 C05 C20 C06"
   [core2]="C05 C03 C01 C20" [h264]="C10 C15 C08 C09 C06" [h265]="C14 C08 C09" [vpx]="C11 C12 C08 C09" [av1]="C13 C15 C08 C09 C19" )
-export VERIF_WORK=/verif/.work/benign VERIF_EVIDENCE_DIR=/verif/.work/benign/evidence
+export VERIF_WORK=/verif/.work/benign_$$ VERIF_EVIDENCE_DIR=/verif/.work/benign_$$/evidence
+mkdir -p $VERIF_WORK
 for d in benign/*/; do
   id=$(basename $d); g=${id%-*}
   [ $# -gt 0 ] && [[ " $* " != *" $g "* ]] && continue
-  W=/tmp/benignrun_$$; git -C /repo worktree add -q --detach $W HEAD || exit 2
+  W=/tmp/benignrun_$$_$id; git -C /repo worktree add -q --detach $W HEAD || exit 2
   git -C $W apply "$(realpath $d)/patch.diff" || { echo "$id: PATCH-DOES-NOT-APPLY"; git -C /repo worktree remove --force $W; continue; }
   bad=""
   for p in ${P[$g]}; do
     [ -n "${ONLY:-}" ] && [[ " $ONLY " != *" $p "* ]] && continue
-    VERIF_REPO=$W ./check $p quick > .work/benign_$p.log 2>&1 || bad="$bad $p($(grep -E '^VIOLATION|^FAIL' .work/benign_$p.log | head -2 | cut -c1-160 | tr '\n' ';'))"
+    VERIF_REPO=$W ./check $p quick > $VERIF_WORK/log_$p.txt 2>&1 || bad="$bad $p($(grep -E '^VIOLATION|^FAIL' $VERIF_WORK/log_$p.txt | head -2 | cut -c1-160 | tr '\n' ';'))"
   done
   git -C /repo worktree remove --force $W
   [ -z "$bad" ] && echo "$id: silent" || echo "$id: ALARM:$bad"
